@@ -40,7 +40,7 @@ MANIFEST = {
     "technique": "Lean 4 theorems over an executable loader model; regenerated site inventory and tables; differential inventory rig",
     "design_ref": "5/C20",
 }
-MODULES = ["PrimaiteModel.Props.C20"]
+MODULES = ["PrimaiteModel.Props.C20", "PrimaiteModel.Props.C20Office"]
 EXE = "drv_c20"
 KEEP = ()  # every mapping is permuted, at every level (F-29, which made `action_probabilities` order-sensitive, is repaired)
 # test assets that are not well-formed scenario files: one needs a plug-in node type, one has `agent_settings:` null
@@ -246,12 +246,44 @@ def office_lan_expected(ns: Dict) -> Tuple[List[str], List[str]]:
     return sorted(nodes), sorted(links)
 
 
-def check_office_lan(ns: Dict) -> List[dict]:
+def office_lines(ns: Dict) -> List[str]:
+    """Driver input for one `office-lan` entry: the model's build and the declared closed form."""
+    args = (f"{R.tok(ns['lan_name'])} {ns['subnet_base']} {ns['pcs_ip_block_start']} {ns['num_pcs']} "
+            f"{'-' if 'include_router' not in ns else (1 if ns['include_router'] else 0)} {ns.get('bandwidth', '-')}")
+    return ["office-build " + args, "office-declared " + args]
+
+
+def office_inventory(net) -> List[str]:
+    """What the adder put into the network, in the driver's format."""
+    out = []
+    for n in net.nodes.values():
+        nic1 = n.network_interface.get(1)
+        ip = getattr(nic1, "ip_address", None)
+        if n._discriminator == "router" and str(ip) == "127.0.0.1":
+            ip = None
+        out.append(f"onode {R.tok(n.config.hostname)} {n._discriminator} {R._o(ip)} {R._o(getattr(n.config, 'default_gateway', None))}")
+    for l in net.links.values():
+        bw = l.bandwidth
+        out.append(f"olink {R.tok(l.endpoint_a.parent.config.hostname)} {l.endpoint_a.port_num} {R.tok(l.endpoint_b.parent.config.hostname)} "
+                   f"{l.endpoint_b.port_num} {int(bw) if float(bw) == int(bw) else bw}")
+    return sorted(out)
+
+
+def check_office_lan(ns: Dict, model_out: Optional[Tuple[str, str]] = None) -> List[dict]:
     cfg = {"io_settings": dict(G.QUIET_IO), "game": {"ports": ["HTTP"], "protocols": ["TCP"]},
            "simulation": {"network": {"nodes": [], "links": [], "node_sets": [ns]}}, "agents": []}
     game, f = _load(cfg)
+    valid = ns["pcs_ip_block_start"] + ns["num_pcs"] < 254 and ns["pcs_ip_block_start"] > max(0, -(-ns["num_pcs"] // 23))
     if f:
+        if not valid and f["exc"] in ("ValueError", "ValidationError"):
+            # a refused entry: the model must refuse it too, for the same reason
+            want = "error ipRange" if "octets cannot exceed" in f["msg"] else ("error ipStartSmall" if "pcs_ip_block_start must be greater" in f["msg"] else "?")
+            if model_out is not None and model_out[0] != want:
+                return [{"kind": "office-lan-model-vs-impl", "model": model_out[0][:80], "impl": f"raises {f['exc']}: {f['msg'][:80]}"}]
+            return []
         return [dict(f, kind="office-lan-raises")]
+    if not valid:
+        return [{"kind": "office-lan-invalid-entry-built", "node_set": ns}]
     net = game.simulation.network
     nodes = sorted(n.config.hostname for n in net.nodes.values())
     links = sorted(f"{l.endpoint_a.parent.config.hostname}:{l.endpoint_a.port_num}<->{l.endpoint_b.parent.config.hostname}:"
@@ -271,11 +303,22 @@ def check_office_lan(ns: Dict) -> List[dict]:
         if str(pc.network_interface[1].ip_address) != f"192.168.{base}.{i + start - 1}" or str(pc.config.default_gateway) != want_gw:
             fails.append({"kind": "office-lan-addressing", "pc": i})
             break
-    # every PC's NIC and its switch port are enabled, and (with a router) the PC reaches its gateway at layer 2
+    # every node is ON and every link end enabled (the adder powers its nodes on and wires them afterwards)
+    for n in net.nodes.values():
+        if n.operating_state.name != "ON":
+            fails.append({"kind": "office-lan-node-not-on", "node": n.config.hostname})
+            break
     for l in net.links.values():
         if not (l.endpoint_a.enabled and l.endpoint_b.enabled):
             fails.append({"kind": "office-lan-link-down", "link": str(l)[:80]})
             break
+    if model_out is not None:
+        inv = office_inventory(net)
+        for which, line in (("build", model_out[0]), ("declared", model_out[1])):
+            m = R.split_inventory(line)
+            if m != inv:
+                fails.append({"kind": "office-lan-model-vs-impl" if which == "build" else "office-lan-declared-vs-built",
+                              "only_model": [x for x in m if x not in inv][:5], "only_impl": [x for x in inv if x not in m][:5]})
     return fails
 
 
@@ -420,7 +463,11 @@ def replay(rec: dict) -> bool:
     rp = rec["replay"]
     mode = rp.get("mode", "scenario")
     if mode == "office-lan":
-        return not check_office_lan(rp["node_set"])
+        with lean_lock():
+            from harness.lib.core import lake_build
+            lake_build([EXE])
+        o = run_driver(EXE, office_lines(rp["node_set"]))
+        return not check_office_lan(rp["node_set"], (o[0], o[1]))
     if mode == "schedule":
         ctx = Ctx("C20", "quick", 1)
         return not check_schedule_dir(Path(rp["dir"]), ctx)[2]
@@ -650,22 +697,39 @@ def run(ctx: Ctx):
     ctx.count("nodes-not-in-declared-state-after-reset (F-31, not claimed)", f31_total)
     ctx.oblige("rig:R-cfg the modelled loader (Lean build) agrees with the real inventory on every modelled scenario", "correspondence",
                agree == modelled, f"{modelled - agree} of {modelled} scenarios disagree")
-    # 5. office-lan node sets (Python oracle; corners included)
+    # 5. office-lan node sets: real adder vs the Lean model of its loop, vs the declared closed form (Lean) and vs an independent
+    #    Python closed form; corners and refused entries included
     orng = ctx.rng.fork("office")
     sets = [{"type": "office-lan", "lan_name": "A", "subnet_base": 5, "pcs_ip_block_start": 10, "num_pcs": 3, "include_router": False},
             {"type": "office-lan", "lan_name": "B", "subnet_base": 6, "pcs_ip_block_start": 10, "num_pcs": 24},
             {"type": "office-lan", "lan_name": "C", "subnet_base": 7, "pcs_ip_block_start": 10, "num_pcs": 47, "include_router": False,
-             "bandwidth": 150}]
+             "bandwidth": 150},
+            {"type": "office-lan", "lan_name": "D", "subnet_base": 8, "pcs_ip_block_start": 2, "num_pcs": 46},          # start = #switches: refused
+            {"type": "office-lan", "lan_name": "E", "subnet_base": 9, "pcs_ip_block_start": 200, "num_pcs": 54}]        # past .253: refused
     for _ in range(ctx.scale(6, 40)):
         ns = {"type": "office-lan", "lan_name": orng.choice(["X", "LAB", "HQ"]), "subnet_base": orng.range(2, 200),
-              "pcs_ip_block_start": orng.range(5, 60), "num_pcs": orng.choice([1, 2, 5, 22, 23, 24, 30, 46, 47, 60])}
+              "pcs_ip_block_start": orng.range(5, 60), "num_pcs": orng.choice([0, 1, 2, 5, 22, 23, 24, 30, 46, 47, 60, 69, 70, 92, 93])}
         if orng.chance(1, 2):
             ns["include_router"] = orng.chance(1, 2)
         if orng.chance(1, 2):
             ns["bandwidth"] = orng.choice([10, 100, 150])
+        if orng.chance(1, 8):
+            ns["pcs_ip_block_start"] = orng.choice([1, 2, 3, 250])
         sets.append(ns)
+    olines: List[str] = []
     for ns in sets:
+        olines += office_lines(ns)
+    oout = run_driver(EXE, olines)
+    ctx.oblige("driver accepted every office-lan line", "correspondence", "bad-op" not in oout, str([q for q, a in zip(olines, oout) if a == "bad-op"][:2]))
+    obad = 0
+    for k, ns in enumerate(sets):
         ctx.count("case:office-lan")
+        ctx.count(f"office-lan:switches={max(1, -(-ns['num_pcs'] // 23))}:router={ns.get('include_router', 'default')}")
         ctx.case(ns, ns["num_pcs"] > 23 or ns.get("include_router") is False)
-        for fl in check_office_lan(ns):
-            ctx.violation({"kind": fl["kind"]}, f"office-lan {ns}: {fl}", {"mode": "office-lan", "node_set": ns, "failure": fl})
+        ctx.cov["traces_validated_against_impl"] += 1
+        for fl in check_office_lan(ns, (oout[2 * k], oout[2 * k + 1])):
+            if fl["kind"] == "office-lan-model-vs-impl":
+                obad += 1
+            ctx.violation({"kind": fl["kind"]}, f"office-lan {ns}: {json.dumps(fl, default=str)[:500]}", {"mode": "office-lan", "node_set": ns, "failure": fl})
+    ctx.oblige("rig:office-lan the modelled adder (Lean officeBuild) agrees with the real one on every node set", "correspondence", obad == 0,
+               f"{obad} node sets disagree")
